@@ -6,7 +6,7 @@ import hashlib
 import os
 from dataclasses import dataclass, field
 from typing import Dict, List, Optional
-from .normalize import normalize
+from .normalize import canonical_calls, normalize
 
 
 class AnalysisError(Exception):
@@ -125,6 +125,7 @@ class Repo:
                 mi.is_pkg = fn == "__init__.py"
                 self.modules[modname] = mi
         self.digest = h.hexdigest()[:16]
+        canonical_calls([mi.tree for mi in self.modules.values()])
         for mi in self.modules.values():
             self._index(mi)
 
